@@ -4,6 +4,7 @@ base?  Writes the *canonical form* of every module of a tree back to source (ast
 pinned suite against it.  usage: tools/canon_roundtrip.py [patch.diff ...]   (no patch: the reference tree)"""
 import ast, os, shutil, subprocess, sys, tempfile
 sys.path.insert(0, os.path.dirname(os.path.dirname(os.path.abspath(__file__))))
+os.environ["SA_KEEP_HELPERS"] = "1"  # (inlined helpers stay defined: a check script may import one)
 from sa import canon
 from sa.known_funcs import KNOWN_FUNCS
 
